@@ -103,7 +103,7 @@ static char paths[MAXPATH][128]; static int npaths;
 static char ctxnames[4][32] = { "ctxA", "ctxB", "", "ctxD" };
 
 /* user descriptors */
-#define MAXUFD 64
+#define MAXUFD 128
 typedef struct { int rd, wr; int kind; bool open; long written, drained; bool nodrain; bool rd_closed, wr_closed; } ufd_t;
 static ufd_t UFD[MAXUFD];
 /* children */
